@@ -31,7 +31,8 @@ CONSTANTS
     HEADERS,    \* BOOLEAN: header-first deliveries enabled
     MANUAL,     \* max number of InvalidateBlock/ReconsiderBlock calls per behaviour
     FLUSH,      \* BOOLEAN: explicit FlushUtxoCache calls enabled (stutter on this layer)
-    DUPS        \* BOOLEAN: re-delivery of blocks the node already has (must be refused, no effect)
+    DUPS,       \* BOOLEAN: re-delivery of blocks the node already has (must be refused, no effect)
+    RESTART     \* max number of restarts (close the database, load the chain again) per behaviour
 
 Blocks == 1..N
 Nodes  == 0..N
@@ -47,13 +48,14 @@ VARIABLES
     everActive,           \* blocks that were in the active chain at some quiescent point
     accHdr,               \* headers accepted through ProcessBlockHeader
     nmanual,              \* manual operations used
+    nrestart,             \* restarts used
     last,                 \* the call just made: [op, b]
     pred,                 \* implementation-layer prediction of its observable result
     exp                   \* property-layer oracle for the state after the call
 
 scenario == <<parent, work, flaw>>
 impl     == <<idx, best, bestHdr, orph>>
-vars     == <<parent, work, flaw, idx, best, bestHdr, orph, manual, everActive, accHdr, nmanual, last, pred, exp>>
+vars     == <<parent, work, flaw, idx, best, bestHdr, orph, manual, everActive, accHdr, nmanual, nrestart, last, pred, exp>>
 
 -----------------------------------------------------------------------------
 (* Tree helpers *)
@@ -229,6 +231,7 @@ Init ==
     /\ everActive = {G}
     /\ accHdr = {}
     /\ nmanual = 0
+    /\ nrestart = 0
     /\ last = [op |-> "init", b |-> 0]
     /\ pred = [ret |-> "none", tip |-> G, notes |-> <<>>, hdrTip |-> G]
     /\ exp = [tips |-> {G}, accept |-> "any", hdrTips |-> {G}, hdrAccept |-> "any"]
@@ -279,7 +282,7 @@ DeliverHeader(b) ==
                       tip |-> Tip(best), notes |-> <<>>, hdrTip |-> Tip(newHdr)]
           /\ exp' = [exp EXCEPT !.accept = "any", !.hdrTips = HdrIdeal(acc, Tip(bestHdr)),
                                 !.hdrAccept = HdrAccept(idx, manual, b)]
-    /\ UNCHANGED <<scenario, best, orph, manual, everActive, nmanual>>
+    /\ UNCHANGED <<scenario, best, orph, manual, everActive, nmanual, nrestart>>
 
 -----------------------------------------------------------------------------
 (* Block delivery *)
@@ -295,7 +298,7 @@ DeliverBlock(b) ==
           /\ pred' = [ret |-> IF S.drainErr THEN "drain_err" ELSE S.ret, tip |-> Tip(S.best), notes |-> S.notes, hdrTip |-> Tip(bestHdr)]
           /\ exp' = [exp EXCEPT !.tips = IdealTips(S.idx, S.orph, manual, everActive \cup SeqToSet(S.best), nmanual),
                                 !.accept = Accept(idx, orph, manual, b), !.hdrAccept = "any"]
-    /\ UNCHANGED <<scenario, bestHdr, manual, accHdr, nmanual>>
+    /\ UNCHANGED <<scenario, bestHdr, manual, accHdr, nmanual, nrestart>>
 
 -----------------------------------------------------------------------------
 (* FlushUtxoCache: no effect on this layer; it is an action so that every    *)
@@ -307,7 +310,7 @@ Flush(mode) ==
     /\ last' = [op |-> "flush", b |-> mode]
     /\ pred' = [pred EXCEPT !.ret = "none", !.notes = <<>>]
     /\ exp' = [exp EXCEPT !.accept = "any", !.hdrAccept = "any"]
-    /\ UNCHANGED <<scenario, impl, manual, everActive, accHdr, nmanual>>
+    /\ UNCHANGED <<scenario, impl, manual, everActive, accHdr, nmanual, nrestart>>
 
 -----------------------------------------------------------------------------
 (* InvalidateBlock / ReconsiderBlock *)
@@ -358,7 +361,7 @@ Invalidate(b) ==
           /\ exp' = [exp EXCEPT !.tips = IdealTips(S2.idx, orph, man, everActive \cup SeqToSet(S2.best), nmanual + 1),
                                 !.accept = "any", !.hdrAccept = "any"]
     /\ nmanual' = nmanual + 1
-    /\ UNCHANGED <<scenario, bestHdr, orph, accHdr>>
+    /\ UNCHANGED <<scenario, bestHdr, orph, accHdr, nrestart>>
 
 Reconsider(b) ==
     /\ nmanual < MANUAL
@@ -379,11 +382,38 @@ Reconsider(b) ==
           /\ exp' = [exp EXCEPT !.tips = IdealTips(S2.idx, orph, man, everActive \cup SeqToSet(S2.best), nmanual + 1),
                                 !.accept = "any", !.hdrAccept = "any"]
     /\ nmanual' = nmanual + 1
-    /\ UNCHANGED <<scenario, bestHdr, orph, accHdr>>
+    /\ UNCHANGED <<scenario, bestHdr, orph, accHdr, nrestart>>
+
+-----------------------------------------------------------------------------
+(* Restart: the process ends (with or without a final flush of the UTXO     *)
+(* cache) and blockchain.New loads the chain again.  What is on disk is the *)
+(* block index with its status flags and the best state; the orphan pool is *)
+(* memory only.  Loading ends with the same candidate activation the manual *)
+(* operations use (a stored, not-known-invalid branch with more work than   *)
+(* the tip is connected).  Header-first bookkeeping is not modelled across  *)
+(* restarts (the code resets the best header to the active tip), so the     *)
+(* action is limited to configurations without header deliveries.           *)
+
+Restart ==
+    /\ nrestart < RESTART
+    /\ ~HEADERS
+    /\ last.op # "restart"
+    /\ LET S2 == Activate([S0 EXCEPT !.orph = <<>>])
+       IN /\ idx' = S2.idx
+          /\ best' = S2.best
+          /\ orph' = <<>>
+          /\ everActive' = everActive \cup SeqToSet(S2.best)
+          /\ last' = [op |-> "restart", b |-> 0]
+          /\ pred' = [ret |-> "ok", tip |-> Tip(S2.best), notes |-> S2.notes, hdrTip |-> Tip(bestHdr)]
+          /\ exp' = [exp EXCEPT !.tips = IdealTips(S2.idx, <<>>, manual, everActive \cup SeqToSet(S2.best), nmanual),
+                                !.accept = "any", !.hdrAccept = "any"]
+    /\ nrestart' = nrestart + 1
+    /\ UNCHANGED <<scenario, bestHdr, manual, accHdr, nmanual>>
 
 -----------------------------------------------------------------------------
 
 Next ==
+    \/ Restart
     \/ \E b \in Blocks : DeliverBlock(b)
     \/ \E b \in Blocks : DeliverHeader(b)
     \/ \E m \in {"required", "ifneeded", "periodic"} : Flush(m)
@@ -432,6 +462,11 @@ NoPoison == \A b \in Blocks :
 \* into the new one (checked on the prediction; the binder checks the real one)
 \* C17: best header chain is made of indexed nodes
 HdrOK == \A i \in 1..Len(bestHdr) : InIndex(idx, bestHdr[i])
+
+\* C04/C02: loading the chain again changes nothing a caller can see: at
+\* every quiescent point no stored, not-known-invalid branch has more work
+\* than the tip, so the activation at load time is a no-op
+RestartStable == Activate([S0 EXCEPT !.orph = <<>>]).best = best
 
 \* orphans never have a stored parent at a quiescent point unless the parent
 \* cannot accept children (invalid) or the orphan itself was refused and dropped
